@@ -536,7 +536,7 @@ Definition udp_async_recv_impl (cx : ctx) (s : Z) (bufs : list Z) (want : bool) 
   else
     let u := u <| u_recv_h := None |> <| u_recv_buf := [] |> <| u_recv_sender := false |> <| u_recv_null := false |> in
     if negb (e =? EC_OK) then (set_udp w s u, [KPost (TUser h [e; 0; 0; 0])])
-    else (set_udp w s u, [KPost (TUser h (recv_args EC_OK data want from))]).
+    else (set_udp w s u, [KPost (TUser h (recv_args EC_OK data want from ++ (if h <? 0 then data else [])))]).
 
 Definition udp_wait_recv_impl (s : Z) (want : bool) (h : Z) (w : net) : net * list kc :=
   let u := get_udp w s in
